@@ -52,6 +52,15 @@ fn read(text: &str) -> Result<Vec<Rule>, String> {
     pest_meta::parser::consume_rules(pairs).map_err(|es| format!("validation: {}", es.iter().map(|e| e.variant.message().to_string()).collect::<Vec<_>>().join("; ")))
 }
 
+thread_local! {
+    /// the near-miss text read (and refused or not) just before the current case, if any
+    static AFTER: std::cell::RefCell<Option<String>> = const { std::cell::RefCell::new(None) };
+}
+
+fn after() -> serde_json::Value {
+    AFTER.with(|a| json!(a.borrow().clone()))
+}
+
 fn check(rep: &mut Report, rules: &[Rule], text: &str, canonical: &str) {
     rep.count("evaluations");
     let r = std::panic::catch_unwind(|| read(text));
@@ -59,7 +68,7 @@ fn check(rep: &mut Report, rules: &[Rule], text: &str, canonical: &str) {
     let k = kinds(rules);
     match r {
         Err(p) => {
-            rep.violation(json!({"property":"C07","config":config_name(),"text":text,"canonical":canonical,
+            rep.violation(json!({"property":"C07","config":config_name(),"text":text,"canonical":canonical,"after_reading":after(),
                 "expected":"the rules that were printed","observed":format!("panic: {}", vmon::pestrun::panic_message(&p))}));
         }
         Ok(Err(msg)) => {
@@ -67,11 +76,11 @@ fn check(rep: &mut Report, rules: &[Rule], text: &str, canonical: &str) {
             // whether the validator likes the grammar is C06's business, but that verdict (and
             // readability itself) must not depend on spacing, comments, escapes or parentheses
             if text != canonical && read(canonical).is_ok() {
-                rep.violation(json!({"property":"C07","config":config_name(),"text":text,"canonical":canonical,
+                rep.violation(json!({"property":"C07","config":config_name(),"text":text,"canonical":canonical,"after_reading":after(),
                     "expected":"the rules that were printed (the canonical spelling of the same grammar is read back)","observed":msg}));
             } else if msg.starts_with("syntax") {
                 // our own canonical spelling is not readable: the printer or the reader is wrong
-                rep.violation(json!({"property":"C07","config":config_name(),"text":text,"canonical":canonical,
+                rep.violation(json!({"property":"C07","config":config_name(),"text":text,"canonical":canonical,"after_reading":after(),
                     "expected":"a grammar written in pest's concrete syntax parses","observed":msg}));
             } else {
                 rep.count("rejected_in_any_spelling");
@@ -91,7 +100,7 @@ fn check(rep: &mut Report, rules: &[Rule], text: &str, canonical: &str) {
             }
             if back != rules {
                 let first = back.iter().zip(rules.iter()).find(|(a, b)| a != b);
-                rep.violation(json!({"property":"C07","config":config_name(),"text":text,"canonical":canonical,
+                rep.violation(json!({"property":"C07","config":config_name(),"text":text,"canonical":canonical,"after_reading":after(),
                     "expected": first.map(|(_, b)| format!("{b:?}")).unwrap_or_else(|| format!("{} rules", rules.len())),
                     "observed": first.map(|(a, _)| format!("{a:?}")).unwrap_or_else(|| format!("{} rules", back.len()))}));
             }
@@ -106,6 +115,13 @@ pub fn run(args: &Args) {
         let w = if v["witness"].is_object() { v["witness"].clone() } else { v.clone() };
         let text = w["text"].as_str().unwrap();
         let canonical = w["canonical"].as_str().unwrap();
+        if let Some(bad) = w["after_reading"].as_str() {
+            // the case was observed after this text had been read on the same thread
+            let _ = std::panic::catch_unwind(|| read(bad).is_ok());
+            AFTER.with(|a| *a.borrow_mut() = Some(bad.to_string()));
+            let _ = read(canonical);
+            let _ = std::panic::catch_unwind(|| read(bad).is_ok());
+        }
         match read(canonical) {
             Ok(rules) => check(&mut rep, &rules, text, canonical),
             Err(e) => {
@@ -133,6 +149,7 @@ pub fn run(args: &Args) {
     cfg.max_rules = 4;
     cfg.max_depth = 5;
     cfg.max_count = 40;
+    let tcfg = vmon::textgen::default_cfg();
     for i in 0..n {
         if rep.elapsed() > args.max_s {
             rep.notes.insert("stopped_early_at".into(), json!(i));
@@ -146,7 +163,20 @@ pub fn run(args: &Args) {
             check(&mut rep, &rules, &canonical, &canonical);
         }
         let text = Printer::fuzz(&mut grng).rules(&rules);
-        rep.journal(|| json!({"text": text, "canonical": canonical}));
+        // one case in three: a near-miss text (refused for most of them) is read first on this thread; what the
+        // reader answers for the grammar after it may not depend on that
+        if i % 3 == 1 {
+            let (bad, _, _) = vmon::textgen::gen_text(&mut grng, i, &[], &tcfg);
+            let bad = if grng.chance(1, 2) { format!("x = {{ {} }}", vmon::textgen::escape_literal(&mut grng)) } else { bad };
+            rep.count("cases_after_a_near_miss_text");
+            if std::panic::catch_unwind(|| read(&bad).is_ok()).unwrap_or(false) {
+                rep.count("near_miss_texts_that_were_accepted");
+            }
+            AFTER.with(|a| *a.borrow_mut() = Some(bad));
+        } else {
+            AFTER.with(|a| *a.borrow_mut() = None);
+        }
+        rep.journal(|| json!({"text": text, "canonical": canonical, "after_reading": after()}));
         check(&mut rep, &rules, &text, &canonical);
     }
     rep.finish(args);
